@@ -20,6 +20,7 @@ import NoKVModel.Queue.Model
 import NoKVModel.Queue.HandshakeModel
 import NoKVModel.Queue.CloserModel
 import NoKVModel.Queue.PackModel
+import NoKVModel.Queue.CompactModel
 
 open NoKV NoKV.Queue Driver
 
@@ -27,7 +28,17 @@ structure DSt where
   cfg : QCfg := QCfg.good
   hcfg : HCfg := HCfg.good
   wcfg : CCfg := CCfg.good
+  /-- slots whose outstanding request the LSM will reject -/
+  poison : List Nat := []
+  /-- the harness holds db.Lock(): the worker is parked in applyRequests -/
+  held : Bool := false
   pcfg : PCfg := PCfg.good
+  kcfg : KCfg := KCfg.good
+  /-- L0 reservation machine of a throttle-liveness case (`open … l0=<NumLevelZeroTables>`) -/
+  kst : KSt := {}
+  l0limit : Nat := 0
+  /-- something was written since the last flush -/
+  dirty : Bool := false
   /-- MemTableSize of a small-memtable case (0 = large, packing never decides anything) -/
   mt : Nat := 0
   /-- the commit worker is spinning in SetBatch: nothing returns any more -/
@@ -57,6 +68,7 @@ def resStr : Res → String
   | .toobig => "toobig"
   | .blocked => "blocked"
   | .closedErr => "closed"
+  | .ioerr => "ioerr"
   | .panic => "panic"
 
 def setCfg (st : DSt) (kv : String) : Option DSt :=
@@ -75,6 +87,10 @@ def setCfg (st : DSt) (kv : String) : Option DSt :=
     | "q.pathOrderStd" => do let b ← boolOfString? v; pure { st with cfg := { st.cfg with pathOrderStd := b } }
     | "q.closeOrderStd" => do let b ← boolOfString? v; pure { st with cfg := { st.cfg with closeOrderStd := b } }
     | "q.enqChecksClosed" => do let b ← boolOfString? v; pure { st with cfg := { st.cfg with enqChecksClosed := b } }
+    | "q.applyStopsAtFailure" => do let b ← boolOfString? v; pure { st with cfg := { st.cfg with applyStopsAtFailure := b } }
+    | "q.waitErrKeepsRef" => do let b ← boolOfString? v; pure { st with cfg := { st.cfg with waitErrKeepsRef := b } }
+    | "q.getDeletedStd" => do let b ← boolOfString? v; pure { st with cfg := { st.cfg with getDeletedStd := b } }
+    | "lsm.compactReleasesReservation" => do let b ← boolOfString? v; pure { st with kcfg := { releaseOnFail := b } }
     | "q.enqFailKeepsRef" => do let b ← boolOfString? v; pure { st with cfg := { st.cfg with enqFailKeepsRef := b } }
     | "q.getClosed" =>
       if v == "notfound" then some { st with getKnown := true, cfg := { st.cfg with getClosed := .notfound } }
@@ -93,7 +109,7 @@ def setCfg (st : DSt) (kv : String) : Option DSt :=
   | _ => none
 
 /-- one round: every client as far as it can go, then the worker through one whole batch -/
-def round (c : QCfg) (p : Params) (s : St) : St × Bool := Id.run do
+def round (c : QCfg) (p : Params) (poison : List Nat) (held : Bool) (s : St) : St × Bool := Id.run do
   let mut s := s
   let mut moved := false
   for t in [0:s.clients.length] do
@@ -101,31 +117,59 @@ def round (c : QCfg) (p : Params) (s : St) : St × Bool := Id.run do
       match step c p s (.cstep t) with
       | some s' => s := s'; moved := true
       | none => break
+  if held then
+    -- the worker is parked inside applyRequests (the harness holds db.Lock): it can still pop
+    -- the first request of a batch when it was idle, nothing else
+    match step c p s .wpop with
+    | some s' => return (s', true)
+    | none => return (s, moved)
   match step c p s .wpop with
-  | some s' =>
-    s := s'; moved := true
+  | some s' => s := s'; moved := true
+  | none => pure ()
+  if s.wph == .collect || s.wph == .applying || s.wph == .failing || s.wph == .acking then
+    moved := true
     for _ in [0:4096] do
       match step c p s .wmore with
       | some s' => s := s'
       | none => break
     for _ in [0:4096] do
-      match step c p s .wapply with
+      -- a poisoned request (its LSM write is rejected) fails, and with it the rest of the batch
+      let a := match s.batch with
+        | t :: _ => if poison.contains t || s.wph == .failing then Act.wfail else Act.wapply
+        | [] => Act.wapply
+      match step c p s a with
       | some s' => s := s'
       | none => break
     for _ in [0:4096] do
       match step c p s .wack with
       | some s' => s := s'
       | none => break
-  | none => pure ()
   match step c p s .wexit with
   | some s' => s := s'; moved := true
   | none => pure ()
   return (s, moved)
 
-def settle (c : QCfg) (p : Params) (s : St) : St := Id.run do
+/-- finish the batch the worker already holds (apply / fail, then acknowledge), taking no
+further request into it -/
+def finishBatch (c : QCfg) (p : Params) (poison : List Nat) (s : St) : St := Id.run do
+  let mut s := s
+  for _ in [0:4096] do
+    let a := match s.batch with
+      | t :: _ => if poison.contains t || s.wph == .failing then Act.wfail else Act.wapply
+      | [] => Act.wapply
+    match step c p s a with
+    | some s' => s := s'
+    | none => break
+  for _ in [0:4096] do
+    match step c p s .wack with
+    | some s' => s := s'
+    | none => break
+  return s
+
+def settle (c : QCfg) (p : Params) (poison : List Nat) (held : Bool) (s : St) : St := Id.run do
   let mut s := s
   for _ in [0:64] do
-    let (s', moved) := round c p s
+    let (s', moved) := round c p poison held s
     s := s'
     if !moved then break
   return s
@@ -147,13 +191,15 @@ def harvest (st : DSt) (skip : Option Nat := none) : DSt := Id.run do
   let mut st := st
   for t in st.outstanding do
     if isIdle st.s t then
-      let r := (lastRet st.s.hist t).getD .panic
+      let r0 := (lastRet st.s.hist t).getD .panic
+      -- the poisoned request is sent through a hook, not setEntry: it gets the plain error
+      let r := if st.poison.contains t && r0 == .panic then Res.ioerr else r0
       let op := match st.s.clients[t]? with | some cl => cl.op | none => .get []
       if r == .ok && op.isWrite then
-        st := { st with spec := (applyOp st.spec op).2 }
+        st := { st with spec := (applyOp st.spec op).2, dirty := true }
       let raced := st.atClose.contains t && !st.cfg.enqFailKeepsRef && (r == .blocked || r == .panic)
       let str := if raced then "closed-race" else resStr r
-      st := { st with outstanding := st.outstanding.erase t, atClose := st.atClose.erase t }
+      st := { st with outstanding := st.outstanding.erase t, atClose := st.atClose.erase t, poison := st.poison.erase t }
       if skip != some t then
         st := { st with parked := (t, str) :: st.parked }
   return st
@@ -173,7 +219,7 @@ def specRead (st : DSt) (k : Key) : String :=
 
 def specWrite (st : DSt) : String :=
   if st.s.clPc = 4 then "blocked|hot|toobig|emptykey|closed"
-  else "ok|hot|toobig|blocked|emptykey|pending"
+  else "ok|hot|toobig|blocked|emptykey|ioerr|pending"
 
 def doCall (st : DSt) (t : Nat) (op : Op) : DSt × String :=
   -- a zero memtable budget: the first write that reaches the LSM wedges the commit worker
@@ -185,10 +231,11 @@ def doCall (st : DSt) (t : Nat) (op : Op) : DSt × String :=
     match step st.cfg st.p st.s (.call t op) with
     | none => (st, "bad-slot\t*")
     | some s1 =>
-      let s2 := settle st.cfg st.p s1
+      let s2 := settle st.cfg st.p st.poison st.held s1
       let st := { st with s := s2, outstanding := st.outstanding ++ [t] }
       if isIdle s2 t then
-        let r := (lastRet s2.hist t).getD .panic
+        let r0 := (lastRet s2.hist t).getD .panic
+        let r := if st.poison.contains t && r0 == .panic then Res.ioerr else r0
         let st := harvest st (skip := some t)
         -- `harvest` already applied an acknowledged write of slot t
         if !op.isWrite && !st.getKnown && s2.clPc ≥ 3 && op.key != [] then (st, "returned\treturned")
@@ -215,7 +262,7 @@ def stepD (st : DSt) (toks : List String) : DSt × String :=
       wbSize := parseNatKV kvs "wbs" 1048576, hotLimit := parseNatKV kvs "hot" 0,
       valThreshold := parseNatKV kvs "vt" 1024 }
     ({ st with p := p, s := St.init 8, parked := [], atClose := [], outstanding := [], spec := [],
-               mt := parseNatKV kvs "mt" 0, dead := false, mtZero := parseNatKV kvs "mtzero" 0 == 1 }, "ok\t*")
+               mt := parseNatKV kvs "mt" 0, dead := false, poison := [], held := false, kst := {}, l0limit := parseNatKV kvs "l0" 0, dirty := false, mtZero := parseNatKV kvs "mtzero" 0 == 1 }, "ok\t*")
   -- `setfill t k free delta`: a write whose size estimate is (free space of the active
   -- memtable, as reported by the implementation) + delta - 2^20; the value stays inline
   | ["setfill", t, k, free, d] =>
@@ -232,6 +279,61 @@ def stepD (st : DSt) (toks : List String) : DSt × String :=
           let (st', out) := doCall st t (.set k [0x66])
           (st', out)
     | _, _, _, _ => (st, "bad-op")
+  | ["hold"] => if st.s.clPc ≥ 1 || st.held then (st, "bad-op\t*") else ({ st with held := true }, "ok\t*")
+  | ["release"] =>
+    let st := { st with held := false }
+    let st := harvest { st with s := settle st.cfg st.p st.poison false (finishBatch st.cfg st.p st.poison st.s) }
+    (st, "ok\t*")
+  | ["poison", t] =>
+    match natOf? t with
+    | some t =>
+      if !(isIdle st.s t) || st.outstanding.contains t || st.parked.any (fun e => e.1 == t) then (st, "busy\t*")
+      else
+        let (st', out) := doCall { st with poison := t :: st.poison } t (.set [0xde, 0xad] [0x78])
+        (st', (out.splitOn "\t").head! ++ "\tioerr|blocked|toobig|pending")
+    | none => (st, "bad-op")
+  -- memtable rotation + flush: no effect on what any call returns
+  | ["flush"] =>
+    (if st.dirty then { st with dirty := false, kst := { st.kst with l0 := st.kst.l0 + 1 } } else st, "ok\tok")
+  -- AdjustThrottle: L0 table count against the watermarks; the result drives the write throttle
+  | ["adjust"] =>
+    if st.l0limit == 0 then (st, "needs-open\t*") else
+    if st.s.clPc ≥ 1 then (st, "bad-op\t*") else
+    let k := adjust st.l0limit { st.kst with thr := st.s.throttle }
+    let a := if k.thr then Act.thrOn else Act.thrOff
+    let st := { st with kst := k }
+    let specCol := if k.l0 ≤ st.l0limit then "off" else if k.l0 ≥ 2 * st.l0limit then "on" else "on|off"
+    if k.thr == st.s.throttle then (st, (if k.thr then "on" else "off") ++ "\t" ++ specCol)
+    else
+      match step st.cfg st.p st.s a with
+      | some s1 =>
+        let st := harvest { st with s := settle st.cfg st.p st.poison st.held s1 }
+        (st, (if k.thr then "on" else "off") ++ "\t" ++ specCol)
+      | none => (st, "ignored\t*")
+  -- one L0 -> ingest move during which a manifest write fails
+  | ["compact", "fail"] =>
+    if st.l0limit == 0 then (st, "needs-open\t*") else
+    if st.s.clPc ≥ 1 then (st, "bad-op\t*") else
+    match kstep st.kcfg st.l0limit st.kst .cstart with
+    | none => (st, "nothing\t*")
+    | some k1 =>
+      match kstep st.kcfg st.l0limit k1 .cfail with
+      | some k2 => ({ st with kst := k2 }, "failed\tfailed")
+      | none => (st, "bad-op")
+  -- healthy L0 -> ingest moves until L0 is at or below the low watermark
+  | ["drainl0"] =>
+    if st.l0limit == 0 then (st, "needs-open\t*") else
+    if st.s.clPc ≥ 1 then (st, "bad-op\t*") else
+    if st.kst.l0 ≤ st.l0limit then (st, "drained\tdrained")
+    else
+      match kstep st.kcfg st.l0limit st.kst .cstart with
+      | none => (st, "undrained\tdrained")
+      | some _ => ({ st with kst := { st.kst with l0 := st.l0limit, reserved := false, moving := false } }, "drained\tdrained")
+  -- Close (if still open) and Open on the same directory: contents stay, everything else is fresh
+  | ["reopen"] =>
+    if st.outstanding != [] then (st, "busy\t*")
+    else ({ st with s := { (St.init 8) with store := st.s.store }, parked := [], atClose := [],
+                     poison := [], held := false }, "ok\tok")
   | ["set", t, k, v] =>
     match natOf? t, bytesOf? k, bytesOf? v with
     | some t, some k, some v => doCall st t (.set k v)
@@ -250,26 +352,27 @@ def stepD (st : DSt) (toks : List String) : DSt × String :=
       match st.parked.find? (fun e => e.1 == t) with
       | some (_, r) =>
         ({ st with parked := st.parked.filter (fun e => e.1 != t) }, r ++ "\t" ++
-          (if st.s.clPc ≥ 1 then "ok|blocked|hot|toobig|closed" else "ok|blocked|hot|toobig"))
+          (if st.s.clPc ≥ 1 then "ok|blocked|hot|toobig|ioerr|closed" else "ok|blocked|hot|toobig|ioerr"))
       | none => (st, (if st.outstanding.contains t then "pending" else "none") ++ "\t*")
     | none => (st, "bad-op")
   | ["throttle", onoff] =>
     let a := if onoff == "on" then Act.thrOn else Act.thrOff
     match step st.cfg st.p st.s a with
     | some s1 =>
-      let st := harvest { st with s := settle st.cfg st.p s1 }
+      let st := harvest { st with s := settle st.cfg st.p st.poison st.held s1 }
       (st, "ok\t*")
     | none => (st, "ignored\t*")
   | ["close"] =>
-    let st := { st with atClose := st.outstanding }
+    let st := { st with atClose := st.outstanding, held := false,
+                        s := if st.held then finishBatch st.cfg st.p st.poison st.s else st.s }
     -- Close runs to completion: queue closed, worker drains and exits, lsm closed, flag set;
     -- calls parked in the throttle loop finish on the way
     let s := Id.run do
       let mut s := st.s
       for _ in [0:8] do
         match step st.cfg st.p s .close with
-        | some s' => s := settle st.cfg st.p s'
-        | none => s := settle st.cfg st.p s
+        | some s' => s := settle st.cfg st.p st.poison st.held s'
+        | none => s := settle st.cfg st.p st.poison st.held s
       return s
     let st := harvest { st with s := s }
     (st, (if s.clPc = 4 then "ok" else "stuck") ++ "\tok")
